@@ -383,12 +383,12 @@ func (l *NativeArrayList[T]) ConcatVal(other Value) (Value, Value) {
 			newList = append(newList, *o...)
 			return Ref(&newList), Undefined
 		case ArrayTuple:
-			newList := make(ArrayListOfValue, len(*l), len(*l)+o.Length())
+			newList := make(ArrayListOfValue, len(*l)+o.Length())
 			for i, element := range *l {
 				newList[i] = element.ToValue()
 			}
 			for i, element := range o.Elements() {
-				newList[i+o.Length()] = element
+				newList[len(*l)+i] = element
 			}
 			return Ref(&newList), Undefined
 		}
